@@ -262,6 +262,59 @@ let dispatch mode f =
          (int_of_z s.a_here)
      | Diag k -> Printf.sprintf "ERR\t%d" (int_of_n k)
      | Crash _ -> "PANIC")
+  | "isadec", [arch; bytes; org] ->
+    (* decode one instruction with the ISA specification and print it in assembly syntax *)
+    let org = int_of_string org in
+    let bs = unhex bytes in
+    let (ops_t, regs_t, flags_t) = List.assoc arch (Lazy.force tabs) in
+    let rev tab id = String.lowercase_ascii (fst (List.find (fun (_, i) -> i = id) tab)) in
+    let reg id = let n = rev regs_t id in if n = "afprime" then "af'" else n in
+    let s8 b = let v = int_of_n b in if v < 128 then v else v - 256 in
+    let w lo hi = int_of_n lo + 256 * int_of_n hi in
+    (match arch with
+     | "z80" ->
+       (match z80_decode bs with
+        | None -> "NONE"
+        | Some ((mn, ops), len) ->
+          let cond f = match rev flags_t f with
+            | "zero" -> "z" | "notzero" -> "nz" | "notcarry" -> "nc" | "parityeven" -> "pe"
+            | "parityodd" -> "po" | "positive" -> "p" | "negative" -> "m" | s -> s in
+          let show = function
+            | OReg r -> reg r | OCond f -> cond f | OInd r -> "(" ^ reg r ^ ")"
+            | OIdx (r, d) -> Printf.sprintf "(%s%+d)" (reg r) (s8 d)
+            | OImm8 n -> string_of_int (int_of_n n) | OImm16 (lo, hi) -> string_of_int (w lo hi)
+            | OMem16 (lo, hi) -> Printf.sprintf "(%d)" (w lo hi) | OPort n -> Printf.sprintf "(%d)" (int_of_n n)
+            | ORel e -> string_of_int ((org + 2 + s8 e) land 0xFFFF) | OLit v -> string_of_int (int_of_n v) in
+          Printf.sprintf "%s %s|%d" (rev ops_t mn) (String.concat "," (List.map show ops)) (int_of_nat len))
+     | "sm83" ->
+       (match sm83_decode bs with
+        | None -> "NONE"
+        | Some ((mn, ops), len) ->
+          let show = function
+            | GReg r -> reg r | GCond f -> rev flags_t f | GInd r -> "(" ^ reg r ^ ")"
+            | GIndInc -> "(hl+)" | GIndDec -> "(hl-)"
+            | GImm8 n -> string_of_int (int_of_n n) | GImm16 (lo, hi) -> string_of_int (w lo hi)
+            | GMem16 (lo, hi) -> Printf.sprintf "(%d)" (w lo hi)
+            | GHigh n -> Printf.sprintf "(%d)" (0xFF00 + int_of_n n)
+            | GSpRel e -> Printf.sprintf "sp%+d" (s8 e)
+            | GRel e -> string_of_int ((org + 2 + s8 e) land 0xFFFF) | GLit v -> string_of_int (int_of_n v) in
+          (* add sp,e takes a signed byte *)
+          let ops_s = match rev ops_t mn, ops with
+            | "add", [GReg r; GImm8 e] when reg r = "sp" -> ["sp"; string_of_int (s8 e)]
+            | _ -> List.map show ops in
+          Printf.sprintf "%s %s|%d" (rev ops_t mn) (String.concat "," ops_s) (int_of_nat len))
+     | _ ->
+       (match mos_decode bs with
+        | None -> "NONE"
+        | Some (((mn, m), ops), len) ->
+          let v = match ops with [b] -> int_of_n b | [lo; hi] -> w lo hi | _ -> 0 in
+          let txt = match m with
+            | MImp -> "" | MAcc -> "a" | MImm -> Printf.sprintf "#%d" v
+            | MZp -> Printf.sprintf "zp:%d" v | MZpX -> Printf.sprintf "zp:%d,x" v | MZpY -> Printf.sprintf "zp:%d,y" v
+            | MAbs -> Printf.sprintf "abs:%d" v | MAbsX -> Printf.sprintf "abs:%d,x" v | MAbsY -> Printf.sprintf "abs:%d,y" v
+            | MInd -> Printf.sprintf "(abs:%d)" v | MIndX -> Printf.sprintf "(zp:%d,x)" v | MIndY -> Printf.sprintf "(zp:%d),y" v
+            | MRel -> string_of_int ((org + 2 + (if v < 128 then v else v - 256)) land 0xFFFF) in
+          Printf.sprintf "%s %s|%d" (rev ops_t mn) txt (int_of_nat len)))
   | _ -> "BADMODE"
 
 let () =
